@@ -1,7 +1,8 @@
 // Command framing replays the case table of FramingCases.tla on the real readers:
-//   hdr:  transport controller HandleIncomingStream (stream-establish header) over a scripted chunking stream
-//   pkt:  util/rwc PacketConn and stream/packet Session over a scripted chunking byte stream
-//   conn: util/rwc Conn
+//
+//	hdr:  transport controller HandleIncomingStream (stream-establish header) over a scripted chunking stream
+//	pkt:  util/rwc PacketConn and stream/packet Session over a scripted chunking byte stream
+//	conn: util/rwc Conn
 package main
 
 import (
@@ -14,6 +15,7 @@ import (
 	"io"
 	"math/rand"
 	"net"
+	"runtime"
 	"sync"
 	"sync/atomic"
 	"time"
@@ -40,19 +42,24 @@ import (
 
 // scripted is an io.ReadWriteCloser / stream.Stream whose Read follows a chunk script.
 type scripted struct {
-	data    []byte
-	pos     int
-	next    func(pos, want int) int // chunk size to return
-	reads   atomic.Int64
-	closed  atomic.Int64
-	maxWant atomic.Int64
-	mu      sync.Mutex
-	done    chan struct{}
-	once    sync.Once
+	data        []byte
+	pos         int
+	next        func(pos, want int) int // chunk size to return
+	reads       atomic.Int64
+	closed      atomic.Int64
+	maxWant     atomic.Int64
+	mu          sync.Mutex
+	done        chan struct{}
+	once        sync.Once
+	eofWithData bool
 }
 
 func newScripted(data []byte, script string, hdrEnd int, rng *rand.Rand) *scripted {
 	s := &scripted{data: data, done: make(chan struct{})}
+	if len(script) > 3 && script[len(script)-3:] == "eof" {
+		s.eofWithData = true
+		script = script[:len(script)-3]
+	}
 	s.next = func(pos, want int) int {
 		switch script {
 		case "all":
@@ -106,6 +113,9 @@ func (s *scripted) Read(p []byte) (int, error) {
 	}
 	copy(p, s.data[s.pos:s.pos+n])
 	s.pos += n
+	if s.eofWithData && s.pos >= len(s.data) {
+		return n, io.EOF // an io.Reader may return the last bytes together with the error
+	}
 	return n, nil
 }
 func (s *scripted) Write(p []byte) (int, error)        { return len(p), nil }
@@ -461,6 +471,73 @@ func runConn(c fcase, rng *rand.Rand) map[string]any {
 	return map[string]any{"lossless": lossless && !silent, "shorts": shorts, "end": endErr, "complete": complete, "pos": pos, "len": len(wire)}
 }
 
+// yieldStream records every Write and yields the processor after it, so that a frame written with more than one Write
+// call can be interleaved with another writer's frame.
+type yieldStream struct {
+	mu  sync.Mutex
+	buf []byte
+}
+
+func (y *yieldStream) Write(p []byte) (int, error) {
+	y.mu.Lock()
+	y.buf = append(y.buf, p...)
+	y.mu.Unlock()
+	runtime.Gosched()
+	time.Sleep(2 * time.Microsecond)
+	return len(p), nil
+}
+func (y *yieldStream) Read(p []byte) (int, error) { select {} }
+func (y *yieldStream) Close() error               { return nil }
+
+// every frame on the wire must be exactly one submitted packet (atomic frames)
+func runAtomicFrames(rng *rand.Rand) map[string]any {
+	ys := &yieldStream{}
+	addr := &net.UnixAddr{Name: "x", Net: "unix"}
+	wr := rwc.NewPacketConn(context.Background(), ys, addr, addr, maxPkt, 4)
+	const writers, per = 6, 60
+	want := map[string]bool{}
+	var wmu sync.Mutex
+	var wg sync.WaitGroup
+	for w := 0; w < writers; w++ {
+		w := w
+		r := rand.New(rand.NewSource(int64(w) + rng.Int63()))
+		wg.Add(1)
+		go func() {
+			defer wg.Done()
+			for k := 0; k < per; k++ {
+				p := make([]byte, 2+r.Intn(40))
+				r.Read(p)
+				p[0], p[1] = byte(w), byte(k)
+				wmu.Lock()
+				want[string(p)] = true
+				wmu.Unlock()
+				_, _ = wr.WriteTo(p, addr)
+			}
+		}()
+	}
+	wg.Wait()
+	ys.mu.Lock()
+	b := ys.buf
+	ys.mu.Unlock()
+	bad, frames := 0, 0
+	for len(b) >= 4 {
+		n := int(binary.LittleEndian.Uint32(b))
+		if n <= 0 || n > len(b)-4 {
+			bad++
+			break
+		}
+		if !want[string(b[4:4+n])] {
+			bad++
+		}
+		frames++
+		b = b[4+n:]
+	}
+	if frames != writers*per {
+		bad++
+	}
+	return map[string]any{"frames": frames, "bad": bad}
+}
+
 // concurrent writers through a PacketConn: every frame is written atomically
 func runConcurrentWriters(rng *rand.Rand) map[string]any {
 	a, b := net.Pipe()
@@ -513,6 +590,9 @@ func runConcurrentWriters(rng *rand.Rand) map[string]any {
 		}
 		got++
 	}
+	// unblock writers if the reader gave up
+	a.Close()
+	b.Close()
 	wg.Wait()
 	return map[string]any{"frames": got, "bad": bad}
 }
@@ -589,6 +669,9 @@ func main() {
 		out.Emit(o)
 	}
 	cw := runConcurrentWriters(rng)
+	af := runAtomicFrames(rng)
+	cw["frames"] = cw["frames"].(int) + af["frames"].(int)
+	cw["bad"] = cw["bad"].(int) + af["bad"].(int)
 	cw["i"] = -1
 	out.Emit(cw)
 	out.Close()
